@@ -318,6 +318,9 @@ func CheckC11(r *Run) int {
 		{"-?? x", "0-9.a "},
 		{"a\r?b?", "\r\n ab"},
 		{"x /*\n?*/ ?", "a*/\n "},
+		{"a := `x\r\n?\r\n` ?", "a`\r\n "},
+		{"/** d *?/ x /* e ?*/ y", "*/a "},
+		{"(a)-? x)-?", "0-9 a"},
 		{"\"a\" ? \"?\"", "a+\"\\ "},
 	}
 	for ti, tp := range templates {
